@@ -490,8 +490,13 @@ func (g *Gen) dirUse(exclude []string) string {
 		return ""
 	}
 	d := cands[g.T.Draw(len(cands))]
-	if g.T.Bool(1, 2) {
+	switch g.T.Draw(5) {
+	case 0, 1:
 		return fmt.Sprintf("@%s(x: %d)", d, g.T.Draw(9))
+	case 2:
+		// an explicit null is not "argument left out": the declared default
+		// does not apply
+		return "@" + d + "(x: null)"
 	}
 	return "@" + d
 }
